@@ -208,7 +208,7 @@ func nextAfter(f float64, k int) float64 {
 }
 
 var unitToks = []string{"ns", "MB", "B", "bytes", "sec", "op", "ns2", "Bs", "MBs", "byte", "é", "b", ""}
-var unitSeps = []string{"/", "*", "-", " ", "\t", " ", " ", "//", "\x80", "\xc3"}
+var unitSeps = []string{"/", "*", "-", " ", "\t", " ", " ", "//", "\x80", "\xc3", "\r", "\n", "\v", "\f", "\r\n", "\u0085", "\u2003", "\u3000", "\x00"}
 
 func main() {
 	defer hx.Flush()
